@@ -229,17 +229,62 @@ HASHER_CLASSES = [("HasherV2", False, False), ("HasherHybrid", True, False),
                   ("FileHasher", False, True), ("FileHasher", True, True)]
 
 
+def range_table(stream, P):
+    """SHA-1 of every contiguous range of `stream` of at most P bytes, plain and zero-extended to P:
+    hash -> [["S", start, len, z]] (byte offsets; used in the scaled world where streams are tiny)."""
+    table = {}
+    n = len(stream)
+    for start in range(n):
+        for ln in range(1, min(P, n - start) + 1):
+            sl = stream[start:start + ln]
+            table.setdefault(sha1(sl), []).append(["S", start, ln, 0])
+            if ln < P:
+                table.setdefault(sha1(sl + bytes(P - ln)), []).append(["S", start, ln, P - ln])
+    return table
+
+
+def run_hasher1(case):
+    """Scaled world: the real v1 Hasher on files of a few bytes with piece length 2 / 4 (the universe
+    HasherV1.tla is model-checked on); every produced piece is named by the byte range it hashes."""
+    sbx = new_sandbox("h1")
+    try:
+        import torrentfile.hasher as th
+        from torrentfile.mixins import ProgMixin
+        sizes, P, align = case["sizes"], case["P"], case["align"]
+        paths, stream = [], b""
+        for fi, n in enumerate(sizes):
+            data = content("h1/%d/%d" % (case["id"], fi), n)
+            p = os.path.join(sbx, "f%d" % fi)
+            write_file(p, data)
+            paths.append(p)
+            stream += data
+        tab = range_table(stream, P)
+        rec = {"id": case["id"], "op": "hasher1", "group": "none", "clauses": case["clauses"], "sizes": list(sizes),
+               "P": P, "align": bool(align), "status": "ok", "pieces": [], "_cfg": "Trace_Create_scaled.cfg"}
+        try:
+            h = th.Hasher(paths, P, align=bool(align), progress=0, progress_bar=ProgMixin.NoProg())
+            rec["pieces"] = [tab.get(bytes(x), []) for x in h]
+        except Exception as ex:
+            rec["status"] = _exc_status(ex)
+        return rec
+    finally:
+        rm(sbx)
+
+
 def run_hashers(case):
     """(root, piece_layer, pieces, padding_file) of every v2-capable hasher on one file."""
     sbx = new_sandbox("hs")
+    block = case.get("block", BLOCK)
+    import torrentfile.hasher as th
+    old_block = th.BLOCK_SIZE
+    th.BLOCK_SIZE = block            # scaled world: the hasher module's block size constant
     try:
-        import torrentfile.hasher as th
         from torrentfile.mixins import ProgMixin
         size, P = case["size"], case["P"]
         data = content("hashers/%d" % case["id"], size)
         path = os.path.join(sbx, "f.bin")
         write_file(path, data)
-        tab2 = alpha.merkle_table(data, 1)
+        tab2 = alpha.merkle_table(data, 1, block=block)
         alpha.zero_table(24, P, tab2)
         tab1 = alpha.stream_table(data, P)
         hs = []
@@ -281,13 +326,19 @@ def run_hashers(case):
             except Exception as ex:
                 h["status"] = _exc_status(ex)
             hs.append(h)
-        return {"id": case["id"], "op": "hashers", "group": "none", "clauses": case["clauses"],
-                "size": size, "P": P, "hashers": hs}
+        out = {"id": case["id"], "op": "hashers", "group": "none", "clauses": case["clauses"],
+               "size": size, "P": P, "hashers": hs}
+        if block != BLOCK:
+            out["_cfg"] = "Trace_Create_scaled.cfg"
+        return out
     finally:
+        th.BLOCK_SIZE = old_block
         rm(sbx)
 
 
 def run_any(case):
+    if case.get("op") == "hasher1":
+        return run_hasher1(case)
     if case.get("op") == "hashers":
         return run_hashers(case)
     return run_create(case)
